@@ -10,6 +10,7 @@ Two streams:
 import re
 import engine as E
 import pfam, sqlgen
+import anfam
 
 KINDS = ("all", "from", "join")
 JOIN_TYPES = ["JOIN", "INNER JOIN", "LEFT JOIN", "LEFT OUTER JOIN", "RIGHT JOIN", "FULL OUTER JOIN", "CROSS JOIN", "FULL JOIN", "RIGHT OUTER JOIN"]
@@ -205,8 +206,8 @@ def req(kind, d, text):
 
 
 def run(ctx):
-    n_known = 4000 if ctx.quick else 60000
-    n_gen = 2000 if ctx.quick else 30000
+    n_known = 3000 if ctx.quick else 60000
+    n_gen = 1500 if ctx.quick else 30000
     ctx.cov["rule"] = ("(1) correspondence of the three analyzers (all levels / FROM only / JOIN only) between the Lean model of the reflective walk and the real classes, on "
                        "the first statement of generated scripts (general generator: every statement kind, so also non-SELECT inputs and rejected texts) and on the dedicated "
                        "queries; (2) oracle on the implementation: a dedicated generator writes queries with known table placement — FROM lists, join chains with ON / USING, "
@@ -223,7 +224,7 @@ def run(ctx):
         c["dialect"] = r.choice(pfam.MAIN_DIALECTS)
         cases.append(c)
     reqs = [req(k, c["dialect"], c["text"]) for c in cases for k in KINDS]
-    res, bad = ctx.corr(reqs, stream="known", nontrivial=lambda q, a: a.startswith("OK") and a != "OK L[]")
+    res, bad = anfam.corr(ctx, reqs, stream="known", nontrivial=lambda q, a: a.startswith("OK") and a != "OK L[]")
     for i, c in enumerate(cases):
         for t in c["tags"]:
             ctx.count("shape:" + t)
@@ -244,7 +245,7 @@ def run(ctx):
         d = r.choice(pfam.MAIN_DIALECTS)
         g = sqlgen.Gen(r, d, wild=False)
         gen.append((d, g.query() if r.chance(0.8) else g.script()))
-    ctx.corr([req(k, d, t) for d, t in gen for k in KINDS], stream="general", nontrivial=lambda q, a: a.startswith("OK") and a != "OK L[]")
+    anfam.corr(ctx, [req(k, d, t) for d, t in gen for k in KINDS], stream="general", nontrivial=lambda q, a: a.startswith("OK") and a != "OK L[]")
     # -- known findings ---------------------------------------------------------------------------------------
     for f in ctx.findings:
         if f.get("status") == "finding":
